@@ -100,3 +100,62 @@ Theorem C18_topup : forall extra utxos l l' st,
   (st = TopSatisfied -> set_budget extra l' <= spendable l') /\
   (st = TopNotEnoughInputs -> forall i, In i l' -> b_req i = true).
 Proof. exact c18_topup. Qed.
+
+(* BudgetInputSet.StartingFeeRate (the StartingFeeRate of every BumpRequest the
+   sweeper makes): the largest POSITIVE starting rate stored on the set's
+   inputs; None - the fee function then asks the estimator - iff no input
+   carries a positive one (an input carrying Some 0 counts as unset) *)
+Theorem C18_set_start_max : forall l,
+  match set_starting_fee_rate l with
+  | None => forall s, In (Some s) l -> s <= 0
+  | Some m => 0 < m /\ In (Some m) l /\ forall s, In (Some s) l -> s <= m
+  end.
+Proof. exact set_start_spec. Qed.
+
+(* composition sweeper -> input set -> publisher -> fee function, over retries:
+   if every starting rate stored on the inputs is absent, 0 (markInputsPublishFailed
+   after an attempt that failed before a tx existed) or >= the relay floor, then
+   for ANY estimator answer and conf target the fee function built from the set's
+   starting rate starts at or above the relay floor (floor <= ceiling), stays
+   there under any Increment / IncreaseFeeRate sequence, and the rate a failed
+   attempt stores back on the inputs (retry_start) satisfies the same condition
+   again - the invariant of the whole retry chain *)
+Theorem C18_retry_start_floor : forall relay l maxr conf ans f0,
+  Forall (start_val_ok relay) l ->
+  0 <= maxr <= RMAX -> 0 <= conf < WMAX -> 0 <= relay <= maxr ->
+  new_ff64 maxr conf relay ans (set_starting_fee_rate l) = Ok f0 ->
+  relay <= ff_cur f0 <= maxr /\
+  (forall ops, relay <= ff_cur (frun64 f0 ops) <= maxr) /\
+  (forall ops, start_val_ok relay (retry_start (ff_cur (frun64 f0 ops)))) /\
+  start_val_ok relay (retry_start 0).
+Proof. exact c18_retry_start_floor. Qed.
+
+(* retry monotonicity - what holds: if the last failure of some input of the
+   retried set carried a fee rate r > 0 (markInputsPublishFailed stored it; the
+   previously stored value is irrelevant), then for ANY other stored rates,
+   estimator answer, ceiling and conf target the next fee function starts and
+   stays at or above min(r, new ceiling): the offered rate does not decrease
+   across the retry *)
+Theorem C18_retry_monotone : forall l stored r maxr conf relay ans f,
+  In (mark_publish_failed stored (failed_result_rate (FailAtRate r))) l -> 0 < r ->
+  0 <= maxr <= RMAX -> 0 <= conf < WMAX ->
+  new_ff64 maxr conf relay ans (set_starting_fee_rate l) = Ok f ->
+  Z.min r maxr <= ff_cur f /\ (forall ops, Z.min r maxr <= ff_cur (frun64 f ops)).
+Proof. exact c18_retry_monotone. Qed.
+
+(* retry monotonicity - what does NOT hold of the code that exists (known
+   finding C18-F2, replayed on the real sweeper by the harness): when a failure
+   that happens before a tx exists (ErrZeroFeeRateDelta / ErrTxNoOutput, result
+   FeeRate 0) intervenes, markInputsPublishFailed overwrites the stored positive
+   rate with 0, StartingFeeRate() treats it as unset and the next attempt
+   restarts from the estimator, strictly below the rate already offered *)
+Theorem C18_retry_monotone_refuted :
+  exists maxr relay conf1 ans1 f0 ops conf2 conf3 ans3 f2,
+    new_ff64 maxr conf1 relay ans1 (set_starting_fee_rate [None]) = Ok f0 /\
+    let r1 := ff_cur (frun64 f0 ops) in
+    let stored1 := mark_publish_failed None (failed_result_rate (FailAtRate r1)) in
+    new_ff64 maxr conf2 relay ans1 (set_starting_fee_rate [stored1]) = Err ErrZeroFeeRateDelta /\
+    let stored2 := mark_publish_failed stored1 (failed_result_rate FailNoTx) in
+    new_ff64 maxr conf3 relay ans3 (set_starting_fee_rate [stored2]) = Ok f2 /\
+    0 < r1 <= maxr /\ relay <= ff_cur f2 /\ ff_cur f2 < r1 /\ ff_cur f2 < Z.min r1 maxr.
+Proof. exact c18_retry_monotone_refuted. Qed.
